@@ -91,6 +91,10 @@ func (d *Ar) Next() (*ArEntry, error) {
 		return nil, err
 	}
 
+	if entry.Size < 0 {
+		return nil, fmt.Errorf("Malformed file entry: negative size")
+	}
+
 	entry.Data = io.NewSectionReader(d.in, d.offset+int64(count), entry.Size)
 	d.offset += int64(count) + entry.Size + (entry.Size % 2)
 
